@@ -55,6 +55,7 @@ void vrt_unname(const void *p);
 const char *vrt_loc(const void *p);	/* "name" / "name+off" / "?" (static rotating buffers) */
 const char *vrt_val(unsigned long v);	/* "&name[+off][|flags]" if v (low 3 bits masked) points into a named object, else number */
 int vrt_is_named(const void *p);
+extern const char *(*vrt_unknown_hook)(const void *p);	/* called for unnamed addresses; may vrt_name() them; non-NULL = named now */
 
 /* ---- blocking primitives ---- */
 int  vrt_mutex_lock(pthread_mutex_t *m);
